@@ -81,6 +81,9 @@ pub enum Mutation {
     /// rewrite one whole field of the 64-byte greeting (see `greeting_field`): the signature
     /// stays valid, so the field's parser is actually reached
     GreetingField { field: u8, pattern: u8, seed: u32 },
+    /// insert `count` well-formed commands (0 = READY, 1 = PING, 2 = SUBSCRIBE) or ignorable
+    /// one-frame messages (3) at item boundary #at
+    CommandFlood { at: usize, count: usize, which: u8 },
 }
 
 /// (start, end) of the greeting fields a peer controls: signature padding, version major,
@@ -247,6 +250,31 @@ impl HostileSpec {
                     let pos = pos.min(data.len());
                     data.splice(pos..pos, ins);
                 }
+                Mutation::CommandFlood { at, count, which } => {
+                    let p = refcodec::parse_stream(&data, Strictness::LENIENT);
+                    let pos = if p.item_ends.is_empty() { data.len() } else { p.item_ends[*at % p.item_ends.len()] };
+                    let mut ins = Vec::with_capacity(count * 12);
+                    for i in 0..*count {
+                        match which % 4 {
+                            0 => ins.extend_from_slice(&refcodec::encode_command(b"READY", &[])),
+                            1 => {
+                                let mut body = vec![4u8];
+                                body.extend_from_slice(b"PING");
+                                body.extend_from_slice(&[0, 0, (i % 251) as u8]);
+                                refcodec::encode_frame(&mut ins, &body, false, true);
+                            }
+                            2 => {
+                                let mut body = vec![9u8];
+                                body.extend_from_slice(b"SUBSCRIBE");
+                                body.push(b'a' + (i % 26) as u8);
+                                refcodec::encode_frame(&mut ins, &body, false, true);
+                            }
+                            _ => refcodec::encode_frame(&mut ins, b"", false, false),
+                        }
+                    }
+                    let pos = pos.min(data.len());
+                    data.splice(pos..pos, ins);
+                }
                 Mutation::GreetingField { field, pattern, seed } => {
                     let (a, b) = GREETING_FIELDS[*field as usize % GREETING_FIELDS.len()];
                     if data.len() >= b {
@@ -260,7 +288,7 @@ impl HostileSpec {
 }
 
 pub fn gen_mutation(src: &mut Src<'_>, flood_max: usize) -> Mutation {
-    match src.weighted(&[5, 3, 3, 5, 3, 3, 1, 1, 2]) {
+    match src.weighted(&[5, 3, 3, 5, 3, 3, 1, 1, 2, 2]) {
         1 => Mutation::Truncate(src.range(0, 400)),
         0 => Mutation::Size {
             frame: src.below(8),
@@ -298,10 +326,19 @@ pub fn gen_mutation(src: &mut Src<'_>, flood_max: usize) -> Mutation {
             at: src.below(4),
             n: src.range(100, 4000),
         },
-        _ => Mutation::GreetingField {
+        8 => Mutation::GreetingField {
             field: src.below(GREETING_FIELDS.len()) as u8,
             pattern: src.below(FIELD_PATTERNS as usize) as u8,
             seed: src.next() as u32,
+        },
+        _ => Mutation::CommandFlood {
+            at: src.below(6),
+            count: match src.weighted(&[2, 2, 1]) {
+                0 => src.range(1, 100),
+                1 => src.range(100, 5000.min(flood_max)),
+                _ => src.range(flood_max / 2, flood_max),
+            },
+            which: src.below(4) as u8,
         },
     }
 }
